@@ -303,6 +303,17 @@ def execute(base, run, tag):
             # one lifetime in seven runs under python -O (decided by a hash, not by the PRNG, so that older replay files
             # and the other draws are unaffected)
             pyopt = int(hashlib.sha256(('%s|%d|pyopt' % (run['prep_seed'], n)).encode()).hexdigest(), 16) % 7 == 0
+            # the simulator owns the clock the import system reads: byte-code files are validated by the source's mtime
+            # (whole seconds) and size, so whether a table rewritten by the previous lifetime "looks unchanged" would
+            # otherwise depend on how fast the machine is; every lifetime starts with all table files stamped at a
+            # simulated time that moves on by 100 s per lifetime
+            for fn in sorted(os.listdir(d)):
+                fp = os.path.join(d, fn)
+                if fn.startswith('ply_ia32_') and os.path.isfile(fp):
+                    try:
+                        os.utime(fp, (1600000000 + 100 * n, 1600000000 + 100 * n))
+                    except OSError:
+                        pass
             st, res = lifetime(d, spec, lf['bytecode'], pyopt)
             stats['lifetimes'] += 1
             if st == 'timeout':
